@@ -212,6 +212,7 @@ def run(ctx):
     from .c17_table import TABLE, guard_check
     cache = {}
     n_auto = n_tab = 0
+    used = {}
     for s in ss:
         key = key_of(s)
         where = "%s:%s" % (s["body"].file_short, s["line"])
@@ -220,16 +221,26 @@ def run(ctx):
             n_auto += 1
             ctx.ok(P, "panic site `%s` in %s discharged: %s" % (s["sig"], s["body"].id.split("::")[-1], why), where)
             continue
-        row = TABLE.get(key)
-        if row is None:
+        rows = TABLE.candidates(key)
+        if not rows:
             ctx.bad(P, "site|" + key, "undischarged panic site `%s` (%s) — not covered by a guard idiom or a reviewed row" % (s["sig"], s["kind"]), where)
             continue
-        g_ok, g_why = guard_check(facts, s, row)
-        if g_ok:
-            n_tab += 1
-            ctx.ok(P, "panic site `%s` discharged by reviewed row: %s%s" % (s["sig"], row["why"], (" [guard: %s]" % g_why) if g_why else ""), where)
-        else:
-            ctx.bad(P, "guard|" + key, "panic site `%s`: the guard its reviewed row relies on is gone (%s)" % (s["sig"], g_why), where)
+        done = False
+        last = ""
+        for row in rows:
+            if used.get(row["row"], 0) >= row.get("max", 1):
+                last = "more sites of this shape than the reviewed row covers (%d)" % row.get("max", 1)
+                continue
+            g_ok, g_why = guard_check(facts, s, row)
+            if g_ok:
+                used[row["row"]] = used.get(row["row"], 0) + 1
+                n_tab += 1
+                ctx.ok(P, "panic site `%s` discharged by reviewed row: %s%s" % (s["sig"], row["why"], (" [guard: %s]" % g_why) if g_why else ""), where)
+                done = True
+                break
+            last = "the guard its reviewed row relies on does not hold (%s)" % g_why
+        if not done:
+            ctx.bad(P, "guard|" + key, "panic site `%s`: %s" % (s["sig"], last), where)
     ctx.note("panic sites: %d auto-discharged, %d by reviewed rows, table size %d" % (n_auto, n_tab, len(TABLE)))
     # ---- R2 grammar ------------------------------------------------------------------------------
     P = "C17-R2"
